@@ -691,3 +691,27 @@ func genKafkaRaw(r *Rand, tier string, emit func(sx.Sx)) {
 		emit(sx.L(sx.B(cb), sx.B(sb)))
 	}
 }
+
+// stages.kafka / queries.kafka: conversations of the APIs and versions the dissector's layouts
+// can express (one partition per Produce topic, record batches, no flexible version), every API
+// at every such version, 0-3 topics / partitions / records, for the later stages and the
+// click-to-filter queries
+func genKafkaStages(r *Rand, tier string, emit func(sx.Sx)) {
+	g := &kgoGen{r: r, clean: true}
+	rounds := 6
+	if tier == "thorough" {
+		rounds = 60
+	}
+	corr := 1
+	for round := 0; round < rounds; round++ {
+		for _, a := range kgoApis {
+			for v := a.min; v <= a.max; v++ {
+				if (a.recordsV2From >= 0 && v < a.recordsV2From) || (a.key == 19 && v >= 5) {
+					continue
+				}
+				corr++
+				emit(kafkaConv(g, []kafkaExchange{g.exchange(a, v, corr)}))
+			}
+		}
+	}
+}
